@@ -51,6 +51,11 @@ def structures():
     out['H2'] = {'ops': OPS, 'node_tpls': t1, 'edge_tpls': {}, 'share': True, 'op': 'io',
                  'circuit': {'name': 'top2', 'circuits': {'d1': {'name': 'mid', 'circuits': {
                      'c1': {'name': 's1', 'nodes': n1, 'edges': []}}, 'edges': []}}, 'edges': []}}
+    out['H3'] = {'ops': OPS, 'node_tpls': dict(t1, **t2), 'edge_tpls': {}, 'share': True, 'op': 'io',
+                 'circuit': {'name': 'top3', 'circuits': {'e1': {'name': 'outer', 'circuits': {
+                     'd1': {'name': 'mid', 'circuits': {'c1': {'name': 's1', 'nodes': n1, 'edges': []},
+                                                        'c2': {'name': 's2', 'nodes': {'a': 'Nc', 'b': 'Nd'}, 'edges': []}},
+                            'edges': []}}, 'edges': []}}, 'edges': []}}
     return out
 
 
@@ -64,7 +69,9 @@ SELECTIONS = {
     'H1': [[('c1/a/io/u', 'N')], [('c1/all/io/u', 'Nn')], [('all/all/io/u', 'N')], [('all/all/io/u', 'Nn')],
            [('all/b/io/u', 'Nn')], [('c2/b/io/u', 'N1'), ('all/all/io/u', 'Nn')]],
     'S12': [[('all/io/u', 'N')], [('all/io/u', 'Nn')], [('n5/io/u', 'N1'), ('all/io/u', 'N')]],
-    'H2': [[('d1/c1/a/io/u', 'N')], [('all/all/all/io/u', 'Nn')], [('d1/c1/all/io/u', 'N')]],
+    'H2': [[('d1/c1/a/io/u', 'N')], [('all/all/all/io/u', 'Nn')], [('d1/c1/all/io/u', 'N')],
+           [('d1/c1/a/io/u', 'N'), ('d1/c1/b/io/u', 'N1')]],
+    'H3': [[('e1/d1/c2/b/io/u', 'N')], [('all/all/all/all/io/u', 'Nn')], [('e1/d1/c1/a/io/u', 'N'), ('e1/all/all/b/io/u', 'Nn')]],
 }
 
 
@@ -129,7 +136,7 @@ def cases(tier, seed):
 
 
 def describe(tier, seed):
-    return {'rule': 'pure integrators x\' = u (+u2, + edge) in 1-4 nodes, depth 0-2 x every listed target selection (single, '
+    return {'rule': 'pure integrators x\' = u (+u2, + edge) in 1-4 nodes, depth 0-3 x every listed target selection (single, '
                     'wildcard, hierarchical, two inputs on one variable) x shapes (N,), (N,1), (N,n) with strictly distinct '
                     'samples x solver x backend x vectorize x recording every 1st/2nd/3rd step; oracle: dict-state reference with sample k during step k '
                     '(fixed step), exact integral / np.interp of the samples on linspace(0,T,N) (adaptive, incl. f(t,y) '
@@ -148,7 +155,7 @@ def run_case(case):
     nodes, edges = sp.flatten(spec)
     io_nodes = [p for p in nodes if nodes[p][0][0] in ('io', 'io2')]
     res = {'evals': 0, 'nontrivial': True}
-    sig = {'features': ['input_depth_ge2'] if case['struct'] == 'H2' else [], 'backend': case['backend'],
+    sig = {'features': ['input_depth_ge2'] if case['struct'] in ('H2', 'H3') else [], 'backend': case['backend'],
            'solver': case['solver']}
 
     def viol(kind, **kw):
